@@ -65,7 +65,8 @@ func (n *Node) remove(topic format.Topic) error {
 	if err := child.remove(topic); err != nil {
 		return err
 	}
-	if len(child.Children) == 0 {
+	// prune the child only if nothing is stored at it either
+	if len(child.Children) == 0 && len(child.Buf) == 0 {
 		delete(n.Children, token)
 	}
 	return nil
